@@ -47,5 +47,15 @@ Globals == {[bl |-> q[1], sv |-> q[2], tr |-> q[3], ver |-> q[4], diff |-> q[5]]
                  \X (IF Rich THEN {"v5", "v14"} ELSE {"v14"})
                  \X (IF Domain = "adversarial" /\ ~Rich THEN {"d5"} ELSE {"d0", "d5", "d10"})}
 
+(* Domain "maniaconv": timelines aimed at the decision thresholds of the osu! -> mania pattern       *)
+(* generators: an optional dense prefix (raises the conversion difficulty), then objects given by    *)
+(* kind, slider span count / span duration class, distance to the previous object's END and hit      *)
+(* sound class; converted under every key mod by the harness.                                        *)
+ManiaFirst == {[k |-> "S", t |-> q[1], p |-> q[2], z |-> q[3]] : q \in {"sp1", "sp2", "sp5", "sp8"} \X {"s80", "s300", "s500"} \X {"n0", "n12"}}
+              \cup (IF Rich THEN {[k |-> "C", t |-> "sp1", p |-> "s80", z |-> z] : z \in {"n0", "n12"}} ELSE {})
+ManiaNext == {[k |-> q[1], t |-> q[2], p |-> q[3], z |-> q[4]] :
+                q \in (IF Rich THEN {"C", "S"} ELSE {"C"}) \X {"d60", "d115", "d130", "d200", "d600"} \X {"s300"} \X {"n0", "n12"}}
+ManiaGlobals == {[bl |-> "b500", sv |-> "sv1", tr |-> "tr1", ver |-> "v14", diff |-> q[1] \o q[2]] : q \in {"d2", "d5", "d8"} \X {"sparse", "dense"}}
+
 (* bounded slider work: by construction of the alphabet (<= 100 repeats, <= 20000 px, <= 10 min) *)
 =============================================================================
